@@ -114,6 +114,8 @@ static CO_ERR COTNmtHbConsWrite(struct CO_OBJ_T *obj, struct CO_NODE_T *node, vo
             value  = *((uint32_t *)buffer);
             time   = (uint16_t)value;
             nodeid = (uint8_t)(value >> 16);
+            /* an entry the table initialisation did not reach */
+            hbc->Node = node;
             result = CONmtHbConsActivate(hbc, time, nodeid);
         }
     }
